@@ -7,7 +7,7 @@
    once (C18_iter: strictly increasing enumeration of exactly the members). *)
 From Coq Require Import List ZArith Bool Arith Sorted Lia.
 From PV Require Import Model.Term Model.Subst Model.Unify Model.FD Model.State Model.Engine Proofs.FDProofs Proofs.FDPropProofs
-  Proofs.UnifyProofs Proofs.DiseqProofs Proofs.MonoProofs Proofs.DenProofs Proofs.FDDen Proofs.FDComp Proofs.Acyc Proofs.FDEq Spec.StreamSem Proofs.EngineProofs Proofs.FDProg Proofs.Complete0 Proofs.ForceC Proofs.StreamProofs Proofs.Unique.
+  Proofs.UnifyProofs Proofs.DiseqProofs Proofs.MonoProofs Proofs.DenProofs Proofs.FDDen Proofs.FDComp Proofs.Acyc Proofs.FDEq Spec.StreamSem Proofs.EngineProofs Proofs.FDProg Proofs.Complete0 Proofs.ForceC Proofs.StreamProofs Proofs.Unique Proofs.ScopeElab Proofs.ScopeState Proofs.RelComplete Proofs.LibCor.
 Import ListNotations.
 Local Open Scope Z_scope.
 
@@ -107,6 +107,21 @@ Theorem C17_program_then_labeling : forall defs th g q st, Den0 th g -> flat g -
   exists a n, MstG th a /\ emitsE (startq defs) n (startq defs (from_array BFS [g; CForceAns q]) st) a.
 Proof. exact flat_then_label. Qed.
 
+(* ... and the same for programs WITH CALLS of recursively defined relations (and closure blocks): for any definitions and any
+   step-indexed value-level reading RelV of the relations that unfolds to the reading of the elaborated body, a solution th
+   of the reading of the program is still solved - up to the variables drawn while running - by an answer delivered after
+   the labeling of the query term *)
+Theorem C17_calls_then_labeling : forall defs (RelV : nat -> nat -> list term -> Prop),
+  (forall r vals, ~ RelV 0%nat r vals) ->
+  (forall k r args th m, RelV (S k) r (map (app th) args) -> Forall (tb m) args ->
+     exists d c nv th', find_def r defs = Some d /\
+       elab defs efuel BFS (combine (d_params d) args) (GConj [d_body d]) m = (c, nv) /\
+       agree m th th' /\ DenV defs RelV k th' c /\ flatV c) ->
+  forall k g q th st, DenV defs RelV k th g -> flatV g -> MstG th st -> GoodS st -> stb st -> gb (st_nextv st) g ->
+  exists a th' n, agree (st_nextv st) th th' /\ MstG th' a /\
+    emitsE (startq defs) n (startq defs (CConj BFS g (CForceAns q)) st) a.
+Proof. exact calls_then_label. Qed.
+
 (* "exactly once", first half: a program without disjunction (==, !=, domains, constraints, conjunction,
    fresh) has at most ONE answer state before labeling - any two answers Solver::next delivers from it are
    the same state - so all its solutions are carried by that one state and none is returned twice by
@@ -174,3 +189,4 @@ Print Assumptions C17_no_solution_lost_flat.
 Print Assumptions C17_labeling_complete.
 Print Assumptions C17_program_then_labeling.
 Print Assumptions C17_one_answer_before_labeling.
+Print Assumptions C17_calls_then_labeling.
